@@ -1,9 +1,183 @@
-import Fpdec.Lemmas.Dom
+import Fpdec.Lemmas.FromFloat
 import Fpdec.Props.C13_Sites
 
-/-! # C13 — property theorems (under construction: see DESIGN.md section 6) -/
+/-!
+# C13 — f64/f32 to Decimal yields the nearest 18-digit Decimal or a precise error
+
+* `try_from_float_spec`: for EVERY bit pattern of an f64 / f32 and every build profile the model of `Decimal::try_from(f)`
+  returns what `Spec.fromFloat` prescribes: `InfiniteValue` / `NotANumber` for the non-finite patterns, otherwise the exact
+  rational value of the pattern (`Spec.decodeBits`) rounded half-even to 18 fractional digits (`Spec.specRound .heven`) with
+  trailing zeros removed (`Spec.normalizeSpec`), or `InternalOverflow` when that coefficient does not fit an i128.  At the single
+  value `-2^127` the statement leaves value-or-overflow open.
+* `try_from_float_total`: no bit pattern makes the conversion panic, in any profile.
+* `heven_nearest`, `normalizeSpec_value`, `from_float_nearest`, `from_float_integral`: the spec itself is justified — a returned
+  Decimal `c·10^-k` is within half a unit of the 18th digit of the float's exact value, an exact tie goes to the even 18-digit
+  coefficient, the result has no trailing fractional zero, and a float with an integral value is converted exactly.
+-/
 
 namespace Fpdec.Props.C13
 open Fpdec Fpdec.Model
+
+theorem try_from_float_spec (prof : Profile) (f : Spec.FloatFmt) (hf : f = Spec.FloatFmt.f64 ∨ f = Spec.FloatFmt.f32)
+    (bits : Nat) (hb : bits < 2 ^ f.bits) :
+    fromFloatAllowed (Spec.fromFloat f bits) (fromFloatOut (tryFromFloat prof f bits)) :=
+  tryFromFloat_spec prof f hf bits hb
+
+/-- the conversion never panics -/
+theorem try_from_float_total (prof : Profile) (f : Spec.FloatFmt) (hf : f = Spec.FloatFmt.f64 ∨ f = Spec.FloatFmt.f32)
+    (bits : Nat) (hb : bits < 2 ^ f.bits) : ∃ r, tryFromFloat prof f bits = .ok r := by
+  have h := tryFromFloat_spec prof f hf bits hb
+  cases ht : tryFromFloat prof f bits with
+  | ok r => exact ⟨r, rfl⟩
+  | panic k =>
+    rw [ht] at h
+    unfold fromFloatAllowed fromFloatOut at h
+    split at h
+    · rcases h with h | h <;> cases h
+    · cases h
+
+/-- half-even rounding of `n/d` is a nearest integer, and the even one on an exact tie -/
+theorem heven_nearest (n d : Int) (hd : 0 < d) :
+    2 * ((Spec.specRound .heven n d * d - n).natAbs : Int) ≤ d ∧
+    (2 * ((Spec.specRound .heven n d * d - n).natAbs : Int) = d → Spec.specRound .heven n d % 2 = 0) := by
+  have h1 := Int.emod_nonneg n (Int.ne_of_gt hd)
+  have h2 := Int.emod_lt_of_pos n hd
+  have h3 : d * (n / d) + n % d = n := Int.mul_ediv_add_emod n d
+  have c1 : (n / d) * d = d * (n / d) := Int.mul_comm _ _
+  have c2 : (n / d + 1) * d = d * (n / d) + d := by rw [Int.add_mul, Int.one_mul, Int.mul_comm]
+  have k1 : ∀ r : Int, 0 ≤ r → (d * (n / d) - (d * (n / d) + r)).natAbs = r := by intro r hr; omega
+  have k2 : ∀ r : Int, r < d → (d * (n / d) + d - (d * (n / d) + r)).natAbs = d - r := by intro r hr; omega
+  unfold Spec.specRound
+  simp only []
+  generalize hrr : n % d = r at *
+  by_cases hr : r = 0
+  · simp only [hr, if_true]; rw [c1]
+    have := k1 r h1
+    rw [h3, hr] at this; rw [this]; omega
+  · simp only [hr, if_false]
+    by_cases ha : 2 * r > d
+    · simp only [ha, if_true]; rw [c2]
+      have := k2 r h2
+      rw [h3] at this; rw [this]; omega
+    · simp only [ha, if_false]
+      by_cases hb : 2 * r < d
+      · simp only [hb, if_true]; rw [c1]
+        have := k1 r h1
+        rw [h3] at this; rw [this]; omega
+      · simp only [hb, if_false]
+        by_cases he : n / d % 2 = 0
+        · simp only [he, if_true]; rw [c1]
+          have := k1 r h1
+          rw [h3] at this; rw [this]
+          exact ⟨by omega, fun _ => trivial⟩
+        · simp only [he, if_false]; rw [c2]
+          have := k2 r h2
+          rw [h3] at this; rw [this]; omega
+
+/-- removing trailing zeros keeps the value, never raises the scale and leaves no trailing fractional zero
+    (when the fuel covers the scale) -/
+theorem normalizeSpec_value : ∀ (fuel : Nat) (c : Int) (p : Nat), p < fuel →
+    (Spec.normalizeSpec fuel c p).2 ≤ p ∧
+    (Spec.normalizeSpec fuel c p).1 * (10 : Int) ^ (p - (Spec.normalizeSpec fuel c p).2) = c ∧
+    ((Spec.normalizeSpec fuel c p).2 > 0 → (Spec.normalizeSpec fuel c p).1 % 10 ≠ 0)
+  | 0, c, p, h => absurd h (Nat.not_lt_zero _)
+  | fuel + 1, c, p, h => by
+    unfold Spec.normalizeSpec
+    by_cases hc : c = 0
+    · simp [hc]
+    · simp only [hc, if_false]
+      by_cases hz : p > 0 ∧ c % 10 = 0
+      · simp only [hz, and_self, if_true]
+        obtain ⟨i1, i2, i3⟩ := normalizeSpec_value fuel (c / 10) (p - 1) (by omega)
+        refine ⟨by omega, ?_, i3⟩
+        have e : p - (Spec.normalizeSpec fuel (c / 10) (p - 1)).2 = (p - 1 - (Spec.normalizeSpec fuel (c / 10) (p - 1)).2) + 1 := by
+          omega
+        rw [e, Int.pow_succ, ← Int.mul_assoc, i2]
+        omega
+      · simp only [hz, if_false]
+        refine ⟨Nat.le_refl _, by simp, fun hp => ?_⟩
+        intro h10; exact hz ⟨hp, h10⟩
+
+/-- the sign / magnitude / exact value of a finite bit pattern, as used by `Spec.fromFloat` -/
+def exactNum (f : Spec.FloatFmt) (bits : Nat) : Int :=
+  if (bits >>> (f.bits - 1)) % 2 = 1 then -((Spec.decodeBits f (bits % 2 ^ (f.bits - 1))).1 : Int)
+  else (Spec.decodeBits f (bits % 2 ^ (f.bits - 1))).1
+def exactDen (f : Spec.FloatFmt) (bits : Nat) : Int := (Spec.decodeBits f (bits % 2 ^ (f.bits - 1))).2
+
+/-- what a successful conversion of a finite pattern returns: `(c, k) = normalize(round_half_even(value · 10^18))` -/
+theorem from_float_value (prof : Profile) (f : Spec.FloatFmt) (hf : f = Spec.FloatFmt.f64 ∨ f = Spec.FloatFmt.f32)
+    (bits : Nat) (hb : bits < 2 ^ f.bits) (hfin : (bits >>> f.fracBits) % 2 ^ f.expBits ≠ 2 ^ f.expBits - 1)
+    (d : Dec) (h : tryFromFloat prof f bits = .ok (.ok d)) :
+    (d.coeff, d.nfrac) =
+      Spec.normalizeSpec 19 (Spec.specRound .heven (exactNum f bits * 10 ^ 18) (exactDen f bits)) 18 := by
+  have hs := tryFromFloat_spec prof f hf bits hb
+  rw [h] at hs
+  unfold fromFloatOut at hs
+  simp only [] at hs
+  unfold Spec.fromFloat at hs
+  simp only [hfin, if_false] at hs
+  unfold exactNum exactDen
+  generalize Spec.normalizeSpec 19 _ 18 = ck at hs ⊢
+  obtain ⟨c, k⟩ := ck
+  simp only [] at hs
+  by_cases hc : c = -(2 : Int) ^ 127
+  · simp only [hc, if_true] at hs
+    unfold fromFloatAllowed at hs
+    simp only [] at hs
+    rcases hs with hs | hs
+    · injection hs with hs; injection hs with h1 h2; rw [h1, h2, hc]
+    · injection hs with hs; cases hs
+  · simp only [hc, if_false] at hs
+    by_cases hfit : Spec.fits c = true
+    · simp only [hfit, if_true] at hs
+      unfold fromFloatAllowed at hs
+      simp only [] at hs
+      injection hs with hs; injection hs with h1 h2; rw [h1, h2]
+    · simp only [hfit] at hs
+      unfold fromFloatAllowed at hs
+      injection hs with hs; cases hs
+
+theorem exactDen_pos (f : Spec.FloatFmt) (bits : Nat) : 0 < exactDen f bits := by
+  unfold exactDen Spec.decodeBits
+  simp only []
+  split
+  · exact Int.natCast_pos.mpr (Nat.pow_pos (by decide))
+  · split
+    · simp
+    · exact Int.natCast_pos.mpr (Nat.pow_pos (by decide))
+
+/-- a returned Decimal `c·10^-k` is a nearest 18-digit decimal of the float's exact value `num/den`, the even one on a tie,
+    and carries no trailing fractional zero -/
+theorem from_float_nearest (prof : Profile) (f : Spec.FloatFmt) (hf : f = Spec.FloatFmt.f64 ∨ f = Spec.FloatFmt.f32)
+    (bits : Nat) (hb : bits < 2 ^ f.bits) (hfin : (bits >>> f.fracBits) % 2 ^ f.expBits ≠ 2 ^ f.expBits - 1)
+    (d : Dec) (h : tryFromFloat prof f bits = .ok (.ok d)) :
+    d.nfrac ≤ 18 ∧
+    2 * ((d.coeff * 10 ^ (18 - d.nfrac) * exactDen f bits - exactNum f bits * 10 ^ 18).natAbs : Int) ≤ exactDen f bits ∧
+    (2 * ((d.coeff * 10 ^ (18 - d.nfrac) * exactDen f bits - exactNum f bits * 10 ^ 18).natAbs : Int) = exactDen f bits →
+      (d.coeff * 10 ^ (18 - d.nfrac)) % 2 = 0) ∧
+    (d.nfrac > 0 → d.coeff % 10 ≠ 0) := by
+  have hv := from_float_value prof f hf bits hb hfin d h
+  obtain ⟨n1, n2, n3⟩ := normalizeSpec_value 19 (Spec.specRound .heven (exactNum f bits * 10 ^ 18) (exactDen f bits)) 18 (by decide)
+  rw [← hv] at n1 n2 n3
+  simp only [] at n1 n2 n3
+  obtain ⟨r1, r2⟩ := heven_nearest (exactNum f bits * 10 ^ 18) (exactDen f bits) (exactDen_pos f bits)
+  rw [← n2] at r1 r2
+  exact ⟨n1, r1, r2, n3⟩
+
+/-- a float with an integral value (denominator one) is converted exactly -/
+theorem from_float_integral (prof : Profile) (f : Spec.FloatFmt) (hf : f = Spec.FloatFmt.f64 ∨ f = Spec.FloatFmt.f32)
+    (bits : Nat) (hb : bits < 2 ^ f.bits) (hfin : (bits >>> f.fracBits) % 2 ^ f.expBits ≠ 2 ^ f.expBits - 1)
+    (hint : exactDen f bits = 1) (d : Dec) (h : tryFromFloat prof f bits = .ok (.ok d)) :
+    d.coeff * 10 ^ (18 - d.nfrac) = exactNum f bits * 10 ^ 18 := by
+  obtain ⟨_, h2, _, _⟩ := from_float_nearest prof f hf bits hb hfin d h
+  rw [hint, Int.mul_one] at h2
+  omega
+
+/-! ### non-vacuity -/
+-- 0.1f64 → 0.1000000000000000055511151231257827… rounded to 18 digits
+example : tryFromFloat Profile.dev .f64 4591870180066957722 = .ok (.ok ⟨100000000000000006, 18⟩) := by decide
+-- 2^127 as f64: InternalOverflow;  +inf: InfiniteValue
+example : tryFromFloat Profile.release .f64 (1150 * 2 ^ 52) = .ok (.error .overflow) := by decide
+example : tryFromFloat Profile.dev .f32 (255 * 2 ^ 23) = .ok (.error .infinite) := by decide
 
 end Fpdec.Props.C13
